@@ -103,7 +103,19 @@ func (x *Exec) intrinsic(fr *Frame, st *State, fn *ssa.Function, args []Value, s
 		x.trusted("io/fs.ValidPath: uninterpreted predicate + audited lemma library")
 		return []Value{validPath(args[0].(*Term))}, true, true
 	case "context.Background", "context.TODO":
+		x.trusted("context: Background is never cancelled; WithCancel(parent) yields a context that is done iff it or its parent was cancelled; Done()/Err() reflect that flag")
+		st.assume(Not(Select(cancelledArr(st), IntLit(0))))
 		return []Value{IfaceV{pseudoTag("context.background"), IntLit(0)}}, true, true
+	case "context.WithCancel":
+		x.trusted("context: Background is never cancelled; WithCancel(parent) yields a context that is done iff it or its parent was cancelled; Done()/Err() reflect that flag")
+		parent := args[0].(IfaceV)
+		c := st.alloc()
+		ca := cancelledArr(st)
+		st.setArr("G|cancelled", Store(ca, c, Select(ca, parent.Val)))
+		cancel := App("cancelfn", IntS, c)
+		st.assume(Eq(App("ctxOfCancel", IntS, cancel), c))
+		st.assume(Le(IntLit(1), cancel))
+		return []Value{IfaceV{pseudoTag("context.cancelCtx"), c}, cancel}, true, true
 	}
 	if r, ok := x.stringIntrinsic(fr, st, name, args, site); ok {
 		return r, true, true
@@ -117,6 +129,30 @@ func (x *Exec) intrinsic(fr *Frame, st *State, fn *ssa.Function, args []Value, s
 
 const modeTypeMask = uint64(1<<31 | 1<<27 | 1<<25 | 1<<24 | 1<<26 | 1<<21 | 1<<19)
 
+func cancelledArr(st *State) *Term { return st.arr("G|cancelled", ArrayS(IntS, BoolS)) }
+
 func (x *Exec) invokeIntrinsic(fr *Frame, st *State, cc *ssa.CallCommon, recv IfaceV, args []Value, site ssa.Instruction) ([]Value, bool) {
+	if isNamed(types.Unalias(cc.Value.Type()), "context", "Context") {
+		x.trusted("context: Background is never cancelled; WithCancel(parent) yields a context that is done iff it or its parent was cancelled; Done()/Err() reflect that flag")
+		switch cc.Method.Name() {
+		case "Done":
+			return []Value{App("donechan", IntS, recv.Val)}, true
+		case "Err":
+			canc := x.eng.globalByName("context", "Canceled").(IfaceV)
+			c := Select(cancelledArr(st), recv.Val)
+			return []Value{IfaceV{Ite(c, canc.Tag, IntLit(0)), Ite(c, canc.Val, IntLit(0))}}, true
+		}
+	}
 	return nil, false
+}
+
+// callCancel: the effect of calling a context.CancelFunc value.
+func (x *Exec) callCancel(st *State, f *Term) {
+	var c *Term
+	if f.Op == "app" && f.Name == "cancelfn" {
+		c = f.Args[0]
+	} else {
+		c = App("ctxOfCancel", IntS, f)
+	}
+	st.setArr("G|cancelled", Store(cancelledArr(st), c, True))
 }
